@@ -83,7 +83,8 @@ constexpr uint64_t half_mod_odd(uint64_t a, uint64_t n) {
 
 // (base ^ exp) % n
 constexpr uint64_t pow_mod(uint64_t base, uint64_t exp, uint64_t n) {
-    uint64_t result = 1u;
+    // (Reducing the initial `1` matters only for `n == 1`, where the only residue is `0`.)
+    uint64_t result = 1u % n;
     base %= n;
 
     while (exp > 0u) {
